@@ -313,130 +313,7 @@ func runC17(c *Ctx) {
 
 	c.Rule("R17.3", func() {
 		c.Floor("R17.3", 2)
-		// The keys under which used and unused objects meet in the shared map: what
-		// they are made of, followed through local copies, separate field
-		// assignments and helper functions of the package.
-		var deep func(v ssa.Value, depth int, out map[ssa.Value]bool)
-		deep = func(v ssa.Value, depth int, out map[ssa.Value]bool) {
-			for x := range BackSlice(v, SliceOpts{ThroughCalls: true}) {
-				if out[x] {
-					continue
-				}
-				out[x] = true
-				if call, ok := x.(*ssa.Call); ok && depth > 0 {
-					if callee := call.Call.StaticCallee(); callee != nil && FuncInModule(callee) && callee.Blocks != nil {
-						for _, r := range Returns(callee) {
-							for _, res := range r.Results {
-								deep(res, depth-1, out)
-							}
-						}
-					}
-				}
-			}
-		}
-		atomsOf := func(v ssa.Value) map[string]bool {
-			sl := map[ssa.Value]bool{}
-			deep(v, 2, sl)
-			atoms := map[string]bool{}
-			for x := range sl {
-				switch x := x.(type) {
-				case *ssa.FieldAddr:
-					if o, ff := FieldOf(x.X.Type(), x.Field); ff != nil {
-						atoms[shortOwner(o)+"."+ff.Name()] = true
-					}
-				case *ssa.Field:
-					if o, ff := FieldOf(x.X.Type(), x.Field); ff != nil {
-						atoms[shortOwner(o)+"."+ff.Name()] = true
-					}
-				case *ssa.Call:
-					if callee := x.Call.StaticCallee(); callee == nil || !FuncInModule(callee) {
-						atoms["call:"+CalleeName(&x.Call)] = true
-					}
-				}
-			}
-			return atoms
-		}
-		relevant := func(a string) bool {
-			switch {
-			case strings.HasSuffix(a, ".PkgPath"), a == "token.Position.Filename", a == "token.Position.Line", a == "token.Position.Column", a == "token.Position.Offset",
-				a == "unused.Object.Name", a == "unused.Object.Path", a == "call:path/filepath.Base", strings.HasPrefix(a, "call:path/filepath."), strings.HasPrefix(a, "call:strings."):
-				return true
-			}
-			return false
-		}
-		var usedSide, unusedSide map[string]bool
-		var pos token.Pos
-		var scan func(fn *ssa.Function)
-		scan = func(fn *ssa.Function) {
-			Instrs(fn, false, func(in ssa.Instruction) {
-				var key ssa.Value
-				switch x := in.(type) {
-				case *ssa.MapUpdate:
-					key = x.Key
-				case *ssa.Lookup:
-					if _, isMap := x.X.Type().Underlying().(*types.Map); isMap {
-						key = x.Index
-					}
-				}
-				if key == nil {
-					return
-				}
-				if _, isStruct := key.Type().Underlying().(*types.Struct); !isStruct {
-					return
-				}
-				at := atomsOf(key)
-				merge := func(dst *map[string]bool) {
-					if *dst == nil {
-						*dst = map[string]bool{}
-					}
-					for a := range at {
-						if relevant(a) {
-							(*dst)[a] = true
-						}
-					}
-				}
-				if at["unused.Result.Used"] {
-					merge(&usedSide)
-					pos = in.Pos()
-				}
-				if at["unused.Result.Unused"] {
-					merge(&unusedSide)
-				}
-			})
-			for _, an := range fn.AnonFuncs {
-				scan(an)
-			}
-		}
-		scan(lint)
-		if usedSide == nil || unusedSide == nil {
-			c.Undecided("the shared map in which used and unused objects of all variants meet was not found in (*linter).lint")
-		}
-		diff := ""
-		for a := range usedSide {
-			if !unusedSide[a] {
-				diff += " only-used-side:" + a
-			}
-		}
-		for a := range unusedSide {
-			if !usedSide[a] {
-				diff += " only-unused-side:" + a
-			}
-		}
-		c.Check(FuncKey(lint)+"::unusedKey::key-parity", pos, diff == "", "the keys for used and unused objects must be built from the same origins, otherwise an object used in one variant never cancels its unused twin in another (%s)", diff)
-		missing := ""
-		for _, req := range []struct{ what, atom string }{{"the package path", ".PkgPath"}, {"the base name of the file", "call:path/filepath.Base"}, {"the file name", "token.Position.Filename"}, {"the line", "token.Position.Line"}, {"the object's name", "unused.Object.Name"}} {
-			has := false
-			for a := range usedSide {
-				if a == req.atom || strings.HasSuffix(a, req.atom) {
-					has = true
-				}
-			}
-			if !has {
-				missing += " " + req.what
-			}
-		}
-		c.Check(FuncKey(lint)+"::unusedKey::identifies-object-within-its-package", pos, missing == "", "objects of all packages of a run meet in one map, keyed by (package path, file base name, line, name): without the package path, objects of unrelated packages that share file name, line and name cancel each other and the problems reported for a package depend on which other packages are linted with it; missing:%s", missing)
-		c.Note("R17.3: key origins %v", SortedKeys(usedSide))
+		unusedKeyObligations(c, lint, true)
 	})
 	// R17.4: graph construction keeps no state besides the reviewed
 	// accumulators. Anything else that is written while the graph is being
@@ -480,4 +357,137 @@ func runC17(c *Ctx) {
 			}
 		}
 	})
+}
+
+// unusedKeyObligations decides what the keys are made of under which used and
+// unused objects of all packages of a run meet in (*linter).lint's shared map.
+func unusedKeyObligations(c *Ctx, lint *ssa.Function, parity bool) {
+	// The keys under which used and unused objects meet in the shared map: what
+	// they are made of, followed through local copies, separate field
+	// assignments and helper functions of the package.
+	var deep func(v ssa.Value, depth int, out map[ssa.Value]bool)
+	deep = func(v ssa.Value, depth int, out map[ssa.Value]bool) {
+		for x := range BackSlice(v, SliceOpts{ThroughCalls: true}) {
+			if out[x] {
+				continue
+			}
+			out[x] = true
+			if call, ok := x.(*ssa.Call); ok && depth > 0 {
+				if callee := call.Call.StaticCallee(); callee != nil && FuncInModule(callee) && callee.Blocks != nil {
+					for _, r := range Returns(callee) {
+						for _, res := range r.Results {
+							deep(res, depth-1, out)
+						}
+					}
+				}
+			}
+		}
+	}
+	atomsOf := func(v ssa.Value) map[string]bool {
+		sl := map[ssa.Value]bool{}
+		deep(v, 2, sl)
+		atoms := map[string]bool{}
+		for x := range sl {
+			switch x := x.(type) {
+			case *ssa.FieldAddr:
+				if o, ff := FieldOf(x.X.Type(), x.Field); ff != nil {
+					atoms[shortOwner(o)+"."+ff.Name()] = true
+				}
+			case *ssa.Field:
+				if o, ff := FieldOf(x.X.Type(), x.Field); ff != nil {
+					atoms[shortOwner(o)+"."+ff.Name()] = true
+				}
+			case *ssa.Call:
+				if callee := x.Call.StaticCallee(); callee == nil || !FuncInModule(callee) {
+					atoms["call:"+CalleeName(&x.Call)] = true
+				}
+			}
+		}
+		return atoms
+	}
+	relevant := func(a string) bool {
+		switch {
+		case strings.HasSuffix(a, ".PkgPath"), a == "token.Position.Filename", a == "token.Position.Line", a == "token.Position.Column", a == "token.Position.Offset",
+			a == "unused.Object.Name", a == "unused.Object.Path", a == "call:path/filepath.Base", strings.HasPrefix(a, "call:path/filepath."), strings.HasPrefix(a, "call:strings."):
+			return true
+		}
+		return false
+	}
+	var usedSide, unusedSide map[string]bool
+	var pos token.Pos
+	var scan func(fn *ssa.Function)
+	scan = func(fn *ssa.Function) {
+		Instrs(fn, false, func(in ssa.Instruction) {
+			var key ssa.Value
+			switch x := in.(type) {
+			case *ssa.MapUpdate:
+				key = x.Key
+			case *ssa.Lookup:
+				if _, isMap := x.X.Type().Underlying().(*types.Map); isMap {
+					key = x.Index
+				}
+			}
+			if key == nil {
+				return
+			}
+			if _, isStruct := key.Type().Underlying().(*types.Struct); !isStruct {
+				return
+			}
+			at := atomsOf(key)
+			merge := func(dst *map[string]bool) {
+				if *dst == nil {
+					*dst = map[string]bool{}
+				}
+				for a := range at {
+					if relevant(a) {
+						(*dst)[a] = true
+					}
+				}
+			}
+			if at["unused.Result.Used"] {
+				merge(&usedSide)
+				pos = in.Pos()
+			}
+			if at["unused.Result.Unused"] {
+				merge(&unusedSide)
+			}
+		})
+		for _, an := range fn.AnonFuncs {
+			scan(an)
+		}
+	}
+	scan(lint)
+	if usedSide == nil || unusedSide == nil {
+		c.Undecided("the shared map in which used and unused objects of all variants meet was not found in (*linter).lint")
+	}
+	diff := ""
+	for a := range usedSide {
+		if !unusedSide[a] {
+			diff += " only-used-side:" + a
+		}
+	}
+	for a := range unusedSide {
+		if !usedSide[a] {
+			diff += " only-unused-side:" + a
+		}
+	}
+	if parity {
+		c.Check(FuncKey(lint)+"::unusedKey::key-parity", pos, diff == "", "the keys for used and unused objects must be built from the same origins, otherwise an object used in one variant never cancels its unused twin in another (%s)", diff)
+	}
+	missing := ""
+	for _, req := range []struct{ what, atom string }{{"the package path", ".PkgPath"}, {"the base name of the file", "call:path/filepath.Base"}, {"the file name", "token.Position.Filename"}, {"the line", "token.Position.Line"}, {"the object's name", "unused.Object.Name"}} {
+		has := false
+		for a := range usedSide {
+			if a == req.atom || strings.HasSuffix(a, req.atom) {
+				has = true
+			}
+		}
+		if !has {
+			missing += " " + req.what
+		}
+	}
+	c.Check(FuncKey(lint)+"::unusedKey::identifies-object-within-its-package", pos, missing == "", "objects of all packages of a run meet in one map, keyed by (package path, file base name, line, name): without the package path, objects of unrelated packages that share file name, line and name cancel each other and the problems reported for a package depend on which other packages are linted with it; missing:%s", missing)
+	if parity {
+		c.Note("R17.3: key origins %v", SortedKeys(usedSide))
+	}
 }
